@@ -140,9 +140,29 @@ def run_c02(prop, tier, seed, replay=None):
             raise Internal("Reader simulation: only %d behaviours" % len(scen))
         for i, sc in enumerate(scen):
             sc["id"] = i
+    if replay and scen[0].get("kind") == "fuseconc":
+        import p_http
+        p_http._drive(v, prop, scen, lambda c: "fuseconc")
+        return v.finish()
     applied, stats = harness(v, prop, scen, parallel=10, timeout=180)
-    v.cov["traces_validated_against_impl"] = len(scen)
-    v.cov["evaluations"] = len(scen)
+    nfc = 0
+    if not replay:
+        # the FUSE front-end: several reads in flight on one handle share one Reader (FuseHandle.tla)
+        import p_http
+        r = run_tlc("FuseHandle", "FuseHandle_mc.cfg", workers=4, timeout=600)
+        require_ok(r, "FuseHandle model checking")
+        v.add_tlc("FuseHandle_mc.cfg", r)
+        r = run_tlc("FuseHandle", "FuseHandle_shipped.cfg", workers=2, timeout=600)
+        if r.violation not in ("Prefix", "Exact"):
+            raise Internal("FuseHandle_shipped.cfg: the deviation is not refuted (%s / %s)" % (r.violation, r.error))
+        os.unlink(r.outfile)
+        fc = p_http._cases("MCFuseHandle", "FuseHandle_cases.cfg", v, 40)
+        for i, c in enumerate(fc):
+            c["id"], c["kind"] = i, "fuseconc"
+        nfc = p_http._drive(v, prop, fc, lambda c: "fuseconc")
+        v.cov["fuse_handle"] = {"cases": nfc, "rule": "every (read A, read B, late piece) case of FuseHandle.tla on a real FUSE handle of a running torrent"}
+    v.cov["traces_validated_against_impl"] = len(scen) + nfc
+    v.cov["evaluations"] = len(scen) + nfc
     v.cov["distinct_nontrivial"] = len({json.dumps([s["offset"], s["steps"]], sort_keys=True) for s in scen})
     v.cov["rule"] = "TLC-simulated seek/read/evict/cancel/kill behaviours of Reader.tla executed on a real tor.Reader; every returned byte compared with the ground truth"
     v.cov["reader_stats"] = stats
